@@ -69,6 +69,16 @@ func reprEscape(s string, delim byte, w io.Writer) {
 }
 
 func reprString(str String, w io.Writer) {
+	if str.holes > 0 {
+		// There is no string literal syntax for holes; spell out the char tuples.
+		fu.WriteString(w, "{")
+		for i, e := 0, str.Enumerator(); e.MoveNext(); i++ {
+			writeSep(w, i, ", ")
+			fu.FRepr(w, e.Current())
+		}
+		fu.WriteString(w, "}")
+		return
+	}
 	reprOffset(str.offset, w)
 	reprStr(string(str.s), w)
 }
